@@ -76,6 +76,8 @@ def run(spec, tier, seed):
     t0 = time.time()
     verdict = core.Verdict(spec.id)
     ok, msg = core.build_tools()
+    if ok and getattr(spec, "controlled", False):
+        ok, msg = core.build_controlled()
     if not ok:
         verdict.add("%s build" % spec.id, "harness does not build against the current tree: " + msg[-1500:], dict(kind="build", log=msg[-4000:]), found_input=False)
     lean = core.lean_stage(spec.id, spec.gen_targets)
